@@ -395,6 +395,25 @@ let global_stream oc =
                                       d = [ macro "m" [ ("p", Some (var "g")) ] [ text "["; pv "p"; text "|"; pv "g"; text "]" ] ] })
     [ s_top; s_loop; s_macro ]
 
+(* a helper of the library has a namesake: a macro of the caller, a macro of another library the call passes through.
+   The library's macro calls ITS helper, whoever calls it and from where *)
+let helper_namesake_stream oc =
+  let lib = [ macro "h" [ ("a", None) ] [ text "<h"; pv "a"; text ">" ];
+              macro "m" [ ("p", None) ] [ text "[m"; pv "p"; pr (M.ECall (bs "h", [ var "p" ])); text "]" ] ] in
+  let lib_b = [ macro "h" [ ("a", None) ] [ text "<Bh"; pv "a"; text ">" ];
+                macro "via" [ ("x", None) ] [ M.NImport (lit_str libname, bs "L"); pr (M.EModCall (var "L", bs "m", [ var "x" ])) ];
+                macro "viafrom" [ ("x", None) ] [ M.NFrom (lit_str libname, [ (bs "m", bs "mm") ]); pr (M.ECall (bs "mm", [ var "x" ])) ] ] in
+  let own_h = macro "h" [ ("a", None) ] [ text "<Ch"; pv "a"; text ">" ] in
+  let tpls = [ (libname, lib); ("libb", lib_b);
+               ("direct", [ M.NImport (lit_str libname, bs "L"); pr (M.EModCall (var "L", bs "m", [ lit_int 1 ])) ]);
+               ("callerhas", [ own_h; M.NImport (lit_str libname, bs "L"); pr (M.EModCall (var "L", bs "m", [ lit_int 1 ])) ]);
+               ("callerhasfrom", [ own_h; M.NFrom (lit_str libname, [ (bs "m", bs "m") ]); pr (M.ECall (bs "m", [ lit_int 1 ])) ]);
+               ("viab", [ M.NImport (lit_str "libb", bs "b"); pr (M.EModCall (var "b", bs "via", [ lit_int 1 ])) ]);
+               ("viabfrom", [ M.NImport (lit_str "libb", bs "b"); pr (M.EModCall (var "b", bs "viafrom", [ lit_int 1 ])) ]);
+               ("inloop", [ own_h; M.NImport (lit_str libname, bs "L"); forv "i" (M.EArr [ lit_int 1 ]) [ pr (M.EModCall (var "L", bs "m", [ var "i" ])) ] ]) ] in
+  emit_mains oc ~stream:"c12-helper-namesake" ~known:"" ~predict:true ~globals:[] ~site:"namesake" ~macro:"m" ~nargs:1 ~meta:[]
+    tpls [ "direct"; "callerhas"; "callerhasfrom"; "viab"; "viabfrom"; "inloop" ]
+
 let isolated_stream oc =
   List.iter (fun args ->
     emit_scenario oc { scenario0 with stream = "c12-isolated"; site = s_isolated; args;
@@ -538,5 +557,6 @@ let run ~seed ~tier oc =
   isolated_stream oc;
   regression_stream oc;
   default_sibling_stream oc ~known:"default-calls-sibling-macro";
+  helper_namesake_stream oc;
   operand_stream oc;
   decl_stream oc
